@@ -31,6 +31,15 @@ class _CommonVisitors(visitor.NodeVisitor):
     Contains the visitor methods that are equal between SQLAlchemy Core and ORM.
     """
 
+    def generic_visit(self, node: ast._Node) -> ClauseElement:
+        """
+        Nodes without a dedicated visitor method (e.g. geography literals, named
+        parameters) cannot be expressed: refuse them instead of returning ``None``.
+
+        :meta private:
+        """
+        raise ex.TypeException("SQLAlchemy translation", type(node).__name__)
+
     def visit_Null(self, node: ast.Null) -> Null:
         ":meta private:"
         return null()
